@@ -3,7 +3,7 @@ CONSTANTS
   GridSel = "g2"
   UnOps = {"-"}
   CastTypes = {"sc", "us"}
-  BinOps = {"+", "*", "/", ">>", "<", "&&"}
+  BinOps = {"+", "/", ">>", "<", "&&"}
   UseCond = FALSE
   LvTypes = {}
   AsgOps = {}
